@@ -186,9 +186,14 @@ func (w *World) sessPost(idx int, repo string, q url.Values, body []byte, obj *O
 					if tgtHas {
 						tgt.maybeGone = false
 						tgt.acked = now
+						tgt.refresh(now)
 					} else {
 						mr.blobs[mountStr] = &MBlob{data: data, born: now, acked: now}
 					}
+				}
+				if tgtHas {
+					tgt.refresh(now)
+					tgt.acked = now
 				}
 				w.m.usedDigests[mountStr] = true
 				w.x.out.probe("mount-201")
@@ -231,6 +236,8 @@ func (w *World) sessPost(idx int, repo string, q url.Values, body []byte, obj *O
 		switch {
 		case r.Code == 201:
 			if has && !b.maybeGone {
+				b.refresh(now)
+				b.acked = now
 				return nil, r
 			}
 			if !ok && !(has && b.maybeGone) {
@@ -239,6 +246,7 @@ func (w *World) sessPost(idx int, repo string, q url.Values, body []byte, obj *O
 			}
 			if has {
 				b.maybeGone, b.acked = false, now
+				b.refresh(now)
 			} else {
 				mr.blobs[dStr] = &MBlob{data: append([]byte(nil), body...), born: now, acked: now}
 			}
@@ -538,11 +546,10 @@ func (w *World) sessData(s *MSess, body []byte, final bool, declared string, o c
 
 func (w *World) storeBlob(mr *MRepo, d string, data []byte, born, now time.Time) {
 	if b, ok := mr.blobs[d]; ok {
-		if b.maybeGone {
-			b.maybeGone = false
-			b.acked = now
-			// if the file was collected the new one is young; if not, the old age stands: keep the older birth
-		}
+		b.maybeGone = false
+		b.acked = now
+		// an upload that was acknowledged again counts as an upload: the grace period starts over
+		b.refresh(born)
 		return
 	}
 	mr.blobs[d] = &MBlob{data: data, born: born, acked: now}
